@@ -22,6 +22,75 @@ const c20Icon = "https://icons.terrastruct.com/essentials/004-picture.svg"
 
 type c20Script struct{ script, class string }
 
+// found by the random generator (thorough tier): ELK, an edge from outside into a person-shaped CONTAINER
+const c20ElkNonRectContainer = `direction: right
+o0: {
+  label: "W"
+  shape: cylinder
+}
+o1: {
+  shape: circle
+}
+o2: {
+  label: "A much longer label that is wider than most shapes are"
+  label.near: outside-right-top
+  style.3d: true
+  o3: {
+    label: "Legend"
+    shape: person
+    o4: {
+      shape: callout
+    }
+    o5: {
+      label: "two\nlines"
+      shape: document
+      style.multiple: true
+      width: 900
+    }
+    o6: {
+      label: "api"
+      shape: diamond
+      label.near: outside-bottom-center
+      style.multiple: true
+      o7: {
+        label: "A much longer label that is wider than most shapes are"
+        icon: https://icons.terrastruct.com/essentials/004-picture.svg
+        icon.near: border-bottom-right
+      }
+      o8: {
+        label: "queue"
+        icon: https://icons.terrastruct.com/essentials/004-picture.svg
+        icon.near: outside-top-left
+        width: 50
+      }
+      o9: {
+        label: "x"
+      }
+    }
+  }
+  o10: {
+    label: "two\nlines"
+    shape: callout
+  }
+  o11: {
+    label: "W"
+    shape: image
+    icon: https://icons.terrastruct.com/essentials/004-picture.svg
+    label.near: outside-top-right
+  }
+}
+o2.o3.o5 -> o0: "Legend"
+o0 -> o1: "W"
+o2.o3 -> o2.o3.o4: {source-arrowhead: {shape: cf-one-required}; target-arrowhead.label: 1}
+o2.o3.o6.o8 <- o2.o3.o6.o9
+o2.o10 <-> o2.o3.o6.o7
+o1 <-> o2.o3: {source-arrowhead: {shape: cf-one-required}; target-arrowhead.label: 1}
+o2.o3.o4 <- o2.o3.o6.o7: {source-arrowhead: {shape: triangle}; target-arrowhead.label: 1}
+o0 <- o1
+o2.o3.o6.o9 -> o2: {source-arrowhead: {shape: cf-one}; target-arrowhead.label: 1}
+o2.o11 -> o2.o3.o6.o7
+`
+
 func c20ShapeDecl(id, sh, extra string) string {
 	s := fmt.Sprintf("%s: {shape: %s", id, sh)
 	if sh == "image" {
@@ -78,6 +147,10 @@ func c20Corpus(tier string) []c20Script {
 		if sh == "person" || sh == "image" {
 			marg = append(marg, c20ShapeDeclF(sh, ""))
 		} else {
+			if sh == "text" { // a text shape must have a non-empty label
+				plain = append(plain, c20ShapeDeclF(sh, "label: two words"), c20ShapeDeclF(sh, ""))
+				continue
+			}
 			plain = append(plain, c20ShapeDeclF(sh, "label: \"\""), c20ShapeDeclF(sh, ""))
 		}
 	}
@@ -150,6 +223,9 @@ func c20Corpus(tier string) []c20Script {
 	add("finding-repro", "grid-rows: 1\na: {style.3d: true}\nb\na -> b\nb -> a\n")
 	add("finding-repro", "c: \"\" {g: \"\" {grid-columns: 3; a; b; d}}\nc.g.b -> c\nc.g.a -> c.g.d\n")
 	add("finding-repro", "grid-rows: 1\nhorizontal-gap: 100\na: \"\" {width: 40; height: 40; icon: "+c20Icon+"; icon.near: outside-right-center}\nb\na -> b\nb -> a\n")
+	add("finding-repro", "direction: right\ns: {shape: sequence_diagram; p -> q: hi}\nd: {shape: diamond; height: 700}\ne: {shape: diamond; height: 120}\ns.q -> d\ns.p -> d\ns.q -> e\n")
+	add("finding-repro", "p: \"\" {shape: c4-person; width: 900}\nq: \"\" {shape: c4-person}\na -> p\np -> b\nq -> b\n")
+	add("finding-repro", c20ElkNonRectContainer)
 	// 5. self loops, several edges between a pair
 	add("self-loop", "a -> a\nb -> b: again\nb -> b\na -> b\nc: \"\" {d -> d}\nc -> c\n")
 	add("self-loop", "a: {shape: oval}\na -> a\nh: {shape: hexagon; style.3d: true}\nh -> h\nm: {style.multiple: true}\nm -> m\nk: {d -> d}\nk -> k\n")
